@@ -9,7 +9,7 @@ DRIVER = "c01"
 SHRINK_KEEP_FIRST = 1          # every case starts with `<p> reset`
 NS = 6
 
-RULE = ("case = one operation history (1..400 ops) on six handle slots of Array/Stack/Queue of int, String or a counted "
+RULE = ("case = one operation history (1..~600 ops) on six handle slots of Array/Stack/Queue of int, String or a counted "
         "element type with a heap payload: new/copy/assign/drop handles, append, insert at every position, self-referential "
         "insert/append (a << a[j], a.insert(k, a[j]), a.insert(k, b[j]) with b sharing the block, a.append(a), a.copy(a)), "
         "remove(i,n), removeOne, removeLast, resize up/down, reserve, clear, sort (both overloads), slice, clone, dup, concat, "
@@ -95,7 +95,7 @@ class Ref:
     def __init__(self, t):
         self.t = t
         self.H = [None] * NS
-        self.stats = {"reloc_malloc": 0, "reloc_realloc": 0, "skipped_shared_growth": 0, "maxlen": 0, "maxrc": 0,
+        self.stats = {"grow_reserve_malloc": 0, "grow_reserve_realloc": 0, "grow_insert_realloc": 0, "skipped_shared_growth": 0, "maxlen": 0, "maxrc": 0,
                       "mid_insert": 0, "mid_remove": 0, "self_ref": 0, "caps": set()}
 
     follow = None   # oracle mode: True/False = what the implementation answered for the guarded operation
@@ -121,15 +121,15 @@ class Ref:
     def reserve(self, c, m):
         if m > c.cap:
             if c.cap * ESZ[self.t] < 2048:
-                self.stats["reloc_malloc"] += 1
+                self.stats["grow_reserve_malloc"] += 1
             else:
-                self.stats["reloc_realloc"] += 1
+                self.stats["grow_reserve_realloc"] += 1
             c.cap = max(2 * c.cap, m)
             self.stats["caps"].add(c.cap)
 
     def grow1(self, c):
         if len(c.l) >= c.cap:
-            self.stats["reloc_realloc"] += 1
+            self.stats["grow_insert_realloc"] += 1
             c.cap = 2 * c.cap
             self.stats["caps"].add(c.cap)
 
@@ -424,7 +424,17 @@ class Ref:
         return None
 
 
-REFS = {}
+import threading
+
+_TL = threading.local()   # the engine judges batches in parallel threads; each thread sees its cases in order
+
+
+def _refs():
+    if not hasattr(_TL, "refs"):
+        _TL.refs = {}
+    return _TL.refs
+
+
 REFERENCE_NAME = "python reference: handle slots -> shared python lists, live objects = sum of lengths of reachable lists"
 
 
@@ -433,6 +443,7 @@ def reference(line):
     if len(t) < 2 or len(t[0]) != 2:
         return None
     p = t[0]
+    REFS = _refs()
     if t[1] == "reset":
         REFS[p] = Ref(p[0])
         REFS[p].abstain = True
@@ -442,6 +453,7 @@ def reference(line):
     try:
         r = REFS[p].do(t[1:])
     except Exception:
+        REFS[p].poisoned = True
         return None
     # whether an operation that may grow a shared block is skipped depends on the capacity policy, which is not
     # part of the property: no opinion from there to the end of the case (the correspondence K still compares)
@@ -639,7 +651,8 @@ def nontrivial(case):
 def distribution(cases):
     ops = {}
     by_prefix = {}
-    agg = {"reloc_malloc": 0, "reloc_realloc": 0, "skipped_shared_growth": 0, "mid_insert": 0, "mid_remove": 0, "self_ref": 0}
+    agg = {"grow_reserve_malloc": 0, "grow_reserve_realloc": 0, "grow_insert_realloc": 0, "skipped_shared_growth": 0,
+           "mid_insert": 0, "mid_remove": 0, "self_ref": 0}
     maxlen = 0
     maxrc = 0
     caps = set()
@@ -667,7 +680,8 @@ def distribution(cases):
             maxrc = max(maxrc, ref.stats["maxrc"])
             caps |= ref.stats["caps"]
     d = {"ops_by_kind": ops, "cases_by_element_and_container": by_prefix, "history_length": lens, "max_array_length": maxlen,
-         "max_rc": maxrc, "capacities_reached": sorted(caps)[:60]}
+         "max_rc": maxrc, "distinct_capacities_reached": len(caps),
+         "capacities_reached_sample": sorted(caps)[:12] + sorted(caps)[-24:]}
     d.update(agg)
     return d
 
